@@ -237,12 +237,17 @@ pub open spec fn step_update_members(s: Raw, t: Raw, sender: Seq<char>, h: u64, 
     r is Ok ==> step_update_members(old(deps.storage).view(), final(deps.storage).view(), sender@, height, r->Ok_0.diffs@)
 @ensures C09.update_members_total_is_sum C14
     r is Ok ==> inv(final(deps.storage).view())
+@ensures C09.update_members_removed_are_gone
+    r is Ok ==> forall|j: int| 0 <= j < to_remove@.len() ==> member_of(final(deps.storage).view(), (#[trigger] to_remove@[j])@) is None
 @ensures C14.update_members_frame
     r is Ok ==> admin_of(final(deps.storage).view(), "admin"@) == admin_of(old(deps.storage).view(), "admin"@)
         && hooks_of(final(deps.storage).view(), "cw4-hooks"@) == hooks_of(old(deps.storage).view(), "cw4-hooks"@)
 @inline_snapshot_update 1
 @loop 1 C09.update_members_add_loop
     invariant
+        it.index@ <= to_add@.len(), distinct_members(to_add@),
+        // every member added so far is listed with exactly the requested weight
+        forall|j: int| 0 <= j < it.index@ ==> member_of(deps.storage.view(), (#[trigger] to_add@[j]).addr@) == Some(to_add@[j].weight),
         total.0 == msum(deps.storage.view()),
         diff_chain(states, diffs@, height), states[0] == old(deps.storage).view(), states.last() == deps.storage.view(),
         is_admin_addr(old(deps.storage).view(), "admin"@, sender@),
@@ -250,6 +255,8 @@ pub open spec fn step_update_members(s: Raw, t: Raw, sender: Seq<char>, h: u64, 
         hooks_of(deps.storage.view(), "cw4-hooks"@) == hooks_of(old(deps.storage).view(), "cw4-hooks"@),
 @loop 2 C09.update_members_remove_loop
     invariant
+        it.index@ <= to_remove@.len(),
+        forall|j: int| 0 <= j < it.index@ ==> member_of(deps.storage.view(), (#[trigger] to_remove@[j])@) is None,
         total.0 == msum(deps.storage.view()),
         diff_chain(states, diffs@, height), states[0] == old(deps.storage).view(), states.last() == deps.storage.view(),
         is_admin_addr(old(deps.storage).view(), "admin"@, sender@),
@@ -263,6 +270,8 @@ pub open spec fn step_update_members(s: Raw, t: Raw, sender: Seq<char>, h: u64, 
 @loop_begin 1
     broadcast use cw4_axioms, string_conv;
     let ghost pre = deps.storage.view();
+    let ghost idx1 = it.index@ as int;
+    let ghost add0 = add;
 @loop_end 1
     proof {
         broadcast use cw4_axioms, string_conv;
@@ -270,6 +279,10 @@ pub open spec fn step_update_members(s: Raw, t: Raw, sender: Seq<char>, h: u64, 
         let post = deps.storage.view();
         let a = add_addr@;
         lemma_member_set(pre, a, add.weight, height);
+        assert(add0 == to_add@[idx1]);
+        assert forall|j: int| 0 <= j <= idx1 implies member_of(post, (#[trigger] to_add@[j]).addr@) == Some(to_add@[j].weight) by {
+            if j < idx1 { assert(to_add@[j].addr@ != to_add@[idx1].addr@); }
+        }
         assert(post == member_set(pre, a, add.weight, height));
         let d = diffs@.last();
         assert(d.key@ == a);
@@ -288,12 +301,18 @@ pub open spec fn step_update_members(s: Raw, t: Raw, sender: Seq<char>, h: u64, 
     broadcast use cw4_axioms, string_conv;
     let ghost pre = deps.storage.view();
     let ghost ndiffs = diffs@.len();
+    let ghost idx2 = it.index@ as int;
+    assert(remove@ == to_remove@[idx2]@);
 @loop_end 2
     proof {
         broadcast use cw4_axioms, string_conv;
         lemma_ns4();
         let post = deps.storage.view();
         let a = remove_addr@;
+        lemma_member_set(pre, a, 0, height);
+        assert forall|j: int| 0 <= j <= idx2 implies member_of(post, (#[trigger] to_remove@[j])@) is None by {
+            if to_remove@[j]@ != a { assert(member_of(pre, to_remove@[j]@) is None); }
+        }
         if diffs@.len() != ndiffs {
             lemma_member_set(pre, a, 0, height);
             assert(post == member_del(pre, a, height));
@@ -411,7 +430,7 @@ pub open spec fn step_msg(s: Raw, t: Raw, sender: Seq<char>, h: u64, msg: Execut
 pub open spec fn str_cursor(c: Option<String>) -> Option<Seq<u8>> { match c { Some(s) => Some(utf8(s@)), None => None } }
 
 @fn contracts/cw4-group/src/contract.rs query_list_members [closures: 2]
-@ensures C20.list_members_page
+@ensures C20.list_members_page C09
     r is Ok ==> ({
         let pg = page(listing(deps.storage.view(), "members"@, Seq::<u8>::empty(), false), str_cursor(start_after), limit);
         r->Ok_0.members@.len() == pg.len() && forall|i: int| 0 <= i < pg.len() ==> utf8((#[trigger] r->Ok_0.members@[i]).addr@) == pg[i].0
@@ -431,4 +450,22 @@ pub open spec fn str_cursor(c: Option<String>) -> Option<Seq<u8>> { match c { So
     ensures res.addr@ == __p2_0.0@ && res.weight == __p2_0.1
 @prefix
     broadcast use string_conv;
+@end
+
+// ===================================================================== the query entry point routes every message to its query function
+@enum contracts/cw4-group/src/msg.rs QueryMsg
+impl JsonT for MemberResponse { uninterp spec fn json(self) -> Seq<u8>; uninterp spec fn unjson(b: Seq<u8>) -> Option<Self>; }
+impl JsonT for MemberListResponse { uninterp spec fn json(self) -> Seq<u8>; uninterp spec fn unjson(b: Seq<u8>) -> Option<Self>; }
+impl JsonT for TotalWeightResponse { uninterp spec fn json(self) -> Seq<u8>; uninterp spec fn unjson(b: Seq<u8>) -> Option<Self>; }
+impl JsonT for AdminResponse { uninterp spec fn json(self) -> Seq<u8>; uninterp spec fn unjson(b: Seq<u8>) -> Option<Self>; }
+impl JsonT for HooksResponse { uninterp spec fn json(self) -> Seq<u8>; uninterp spec fn unjson(b: Seq<u8>) -> Option<Self>; }
+@fn contracts/cw4-group/src/contract.rs query
+@ensures C09.query_routes_member_and_total C14 C20
+    r is Ok ==> match msg {
+        QueryMsg::Member { addr, at_height } => exists|x: MemberResponse| r->Ok_0@ == x.json() && call_ensures(query_member, (deps, addr, at_height), Ok::<MemberResponse, StdError>(x)),
+        QueryMsg::TotalWeight { at_height } => exists|x: TotalWeightResponse| r->Ok_0@ == x.json() && call_ensures(query_total_weight, (deps, at_height), Ok::<TotalWeightResponse, StdError>(x)),
+        QueryMsg::ListMembers { start_after, limit } => exists|x: MemberListResponse| r->Ok_0@ == x.json() && call_ensures(query_list_members, (deps, start_after, limit), Ok::<MemberListResponse, StdError>(x)),
+        QueryMsg::Admin {} => exists|x: AdminResponse| r->Ok_0@ == x.json() && admin_answer(deps.storage.view(), "admin"@, x),
+        QueryMsg::Hooks {} => exists|x: HooksResponse| r->Ok_0@ == x.json() && hooks_answer(deps.storage.view(), "cw4-hooks"@, x),
+    }
 @end
